@@ -15,8 +15,10 @@ def OpFact.serialized (r : OpFact) : Bool := r.ctor == .safeC || r.ctor == .evSa
 
 /-- pass-through operators built with the unsafe constructor on the pinned tree: they hand their
     own (non-locking) subscriber upstream, where `newSubscriberImpl` reuses it as is -/
-def knownUnsafePassThrough : List String :=
-  ["StartWith", "Defer", "Catch", "TapOnSubscribeWithContext", "TapOnFinalize"]
+def knownUnsafePassThrough : List String := []
+-- (StartWith, Defer, Catch, TapOnSubscribeWithContext and TapOnFinalize were built with the unsafe
+--  constructor on the pinned tree; repaired by the fix commit "pass-through operators use the safe
+--  constructor")
 
 def c02RowOk (r : OpFact) : Bool :=
   r.ctor != .unknownC
